@@ -3,5 +3,5 @@ CONSTANTS
   LimbBits <- SmallLimbBits
   N = 24
   BreakSub = TRUE
-INVARIANTS NatLaws ZLaws BoundLaws WideLaws
+INVARIANTS NatLaws
 CHECK_DEADLOCK FALSE
